@@ -13,11 +13,12 @@ Proof. exact unwinding_drop_silent. Qed.
    from user code) never reports a second panic *)
 Theorem C11_scope_left_by_panic : forall w x i m a it,
   bc_std (w_bc w) = true -> live_inst w i = Some it -> i_calls it = [] -> matcher_panics (w_cfg w) (w_state w) m a = None ->
+  debug_panics (w_cfg w) (w_state w) m a = None ->
   call_panics w (snd (call hinfo N haccepts hdebug (w_cfg w) (w_state w) m a)) = true ->
   snd (step w {| ev_ctx := x; ev_base := BCallOwn i m a |}) =
   show_call w m a (snd (call hinfo N haccepts hdebug (w_cfg w) (w_state w) m a)).
 Proof.
-  intros w x i m a it Hstd Hl Hnc Hmp Hp. unfold step, step_core, releasing. cbn [ev_base ev_ctx]. rewrite Hl, Hnc, Hmp.
+  intros w x i m a it Hstd Hl Hnc Hmp Hdp Hp. unfold step, step_core, releasing. cbn [ev_base ev_ctx]. rewrite Hl, Hnc, Hmp, Hdp.
   destruct (call hinfo N haccepts hdebug (w_cfg w) (w_state w) m a) as [s' act] eqn:Hc. cbn [snd] in *.
   assert (Hbc : w_bc (after_call w i it s' act) = w_bc w) by (unfold after_call; destruct act; reflexivity).
   destruct (nth_opt (w_insts (after_call w i it s' act)) i) as [it1|] eqn:Hn.
@@ -33,11 +34,11 @@ Qed.
 (* after a caught panic the shared state is exactly what the completed
    evaluation left: later calls and verification see the calls actually matched *)
 Theorem C11_state_after_caught_panic : forall w x i m a it,
-  live_inst w i = Some it -> matcher_panics (w_cfg w) (w_state w) m a = None ->
+  live_inst w i = Some it -> matcher_panics (w_cfg w) (w_state w) m a = None -> debug_panics (w_cfg w) (w_state w) m a = None ->
   w_state (fst (step w {| ev_ctx := x; ev_base := BCall i m a |})) =
   fst (call hinfo N haccepts hdebug (w_cfg w) (w_state w) m a).
 Proof.
-  intros w x i m a it Hl Hm. unfold step, step_core, releasing. cbn [ev_base ev_ctx]. rewrite Hl, Hm.
+  intros w x i m a it Hl Hm Hd. unfold step, step_core, releasing. cbn [ev_base ev_ctx]. rewrite Hl, Hm, Hd.
   destruct (call hinfo N haccepts hdebug (w_cfg w) (w_state w) m a) as [s' act]. cbn [fst].
   unfold after_call. destruct act; reflexivity.
 Qed.
@@ -80,6 +81,20 @@ Theorem C11_debug_panic_is_the_only_panic : forall w x i m a it s',
   step w {| ev_ctx := x; ev_base := BCallM i m a |} = (set_state w s', "P:user:debug"%string).
 Proof.
   intros w x i m a it s' Hl Hm Hd. unfold step, step_core, releasing. cbn [ev_base ev_ctx]. rewrite Hl, Hm, Hd. reflexivity.
+Qed.
+
+(* a scope that OWNS the instance and is left by such a panic (std): the drop during unwinding is silent - one panic, the user's;
+   the same for a plain call: the instance survives with the state of the failing call *)
+Theorem C11_scope_left_by_debug_panic : forall w x i m a it s',
+  bc_std (w_bc w) = true -> live_inst w i = Some it -> i_calls it = [] -> matcher_panics (w_cfg w) (w_state w) m a = None ->
+  debug_panics (w_cfg w) (w_state w) m a = Some s' ->
+  snd (step w {| ev_ctx := x; ev_base := BCallOwn i m a |}) = "P:user:debug"%string /\
+  step w {| ev_ctx := x; ev_base := BCall i m a |} = (set_state w s', "P:user:debug"%string).
+Proof.
+  intros w x i m a it s' Hstd Hl Hnc Hm Hd. split.
+  - unfold step, step_core, releasing. cbn [ev_base ev_ctx]. rewrite Hl, Hnc, Hm, Hd. cbn [snd].
+    rewrite (unwinding_drop_silent hinfo _ _ _ _ it _); [reflexivity|exact Hstd|reflexivity].
+  - unfold step, step_core, releasing. cbn [ev_base ev_ctx]. rewrite Hl, Hm, Hd. reflexivity.
 Qed.
 
 (* non-vacuity of the two: an ordered pattern whose slot is taken by a call that is then rejected *)
